@@ -105,10 +105,24 @@ def check_pairs(ck, tier, found):
     ck.functions.update(common.ir_func_sizes(mod, r'^@h_pairs|NBListGrid(8Generate|8TestBead|8TestCell|14InitializeGrid|7getCell)|NBList8Generate|PairList'))
     tasks = plan(tier, irpath)
     etasks = [{'ir': irpath, 'kind': 'excl', 'angle_first': af, 'label': 'CreateExclusions'} for af in (1, 0)]
+    A, B, C = 65, 66, 67
+    for variant, tt, types, lab in ((1, (A, A, A), [A, A, A], 'one list, beads AAA'), (1, (A, A, A), [A, A, B], 'one list of type A, beads AAB'), (2, (A, B, B), [A, B, B], 'two lists (A; B), beads ABB'), (2, (A, B, B), [B, A, B], 'two lists (A; B), beads BAB'),
+                                     (3, (A, B, C), [A, B, C], 'three lists (A; B; C), beads ABC'), (3, (A, A, B), [A, A, B], 'three separately generated lists (A; A; B), beads AAB'), (3, (A, B, A), [A, B, A], 'three separately generated lists (A; B; A), beads ABA'), (3, (A, A, A), [A, A, A], 'three separately generated lists (A; A; A), beads AAA')):
+        etasks.append({'ir': irpath, 'kind': 'triples', 'n': 3, 'L': ['5/2', '5/2', '5/2'], 'cutoff': '1', 'window': (-1, 2), 'variant': variant, 't': list(tt), 'types': types, 'label': 'simple three-body search, ' + lab})
     nw = min(14, os.cpu_count() or 4); t0 = time.time()
     with multiprocessing.get_context('fork').Pool(nw) as pool:
         allres = pool.map(dispatch, sorted(tasks + etasks, key=lambda t: 0 if (t.get('kind') == 'excl' or t.get('grid')) else 1), chunksize=1)
-    results = [r for r in allres if r['task'].get('kind') != 'excl']
+    results = [r for r in allres if r['task'].get('kind') not in ('excl', 'triples')]
+    for r in allres:
+        t = r['task']
+        if t.get('kind') != 'triples': continue
+        ck.stubs |= set(r.get('models', []))
+        if r.get('error'): ck.inconc('three-body search %s: %s' % (t['label'], r['error'])); continue
+        ck.add_witness('%s: %d paths' % (t['label'], r['npaths']), r['npaths'] >= 1)
+        bads = [b for k, b in r['results'] if b]; unk = [b for b in bads if b[0] == 'unknown']; real = [b for b in bads if b[0] != 'unknown']
+        name = '%s, 3 beads anywhere around a cubic box 2.5, cutoff 1: exactly the triples (centre; {j,k}) allowed by the type lists with both centre distances below the cutoff are delivered, once each, never with a bead twice' % t['label']
+        ck.obligation(name, 'sat' if real else ('unknown' if unk else 'unsat'), 0.0, True, {'paths': r['npaths'], 'first_failure': real[0][0] if real else None})
+        if real: found.append(('triples', name + ' ; ' + real[0][0], {'task': {k: v for k, v in t.items() if k != 'ir'}, 'model': real[0][1] or {}}))
     for r in allres:
         t = r['task']
         if t.get('kind') != 'excl': continue
@@ -185,8 +199,61 @@ def excl_task(t):
                     bad = bad or {'a': va, 'b': vb, 'c': vc, 'd': vd, 'e': ve, 'angle_first': angle_first, 'pair': [i, j], 'got': out[5 * i + j], 'expected': exp}
     return {'task': t, 'npaths': len(res), 'bad': bad, 'models': sorted(st['models_used'])}
 
+def expected_triples(t):
+    """(centre, {j,k}) candidates allowed by the type lists of the variant"""
+    n = t['n']; ty = t['types']; v = t['variant']; t1, t2, t3 = t['t']
+    L1 = [i for i in range(n) if ty[i] == t1]; L2 = [i for i in range(n) if ty[i] == (t1 if v == 1 else t2)]; L3 = [i for i in range(n) if ty[i] == (t1 if v == 1 else (t2 if v == 2 else t3))]
+    cand = set()
+    for c in L1:
+        for j in L2:
+            for k in L3:
+                if len({c, j, k}) == 3: cand.add((c, frozenset((j, k))))
+    return cand
+
+def triple_task(t):
+    mod, parsed = _module(t['ir']); n = t['n']; L = [F(x) for x in t['L']]; c = F(t['cutoff'])
+    pos = [z3.Real('p%d' % i) for i in range(3 * n)]
+    def body(it):
+        lo, hi = t['window']
+        for b in range(n):
+            for d in range(3): it.assume(z3.And(pos[3 * b + d] > lo * L[d], pos[3 * b + d] < hi * L[d]))
+        pp = alloc_doubles(it, 'pos', pos); pb = alloc_doubles(it, 'box', [L[0], 0, 0, 0, L[1], 0, 0, 0, L[2]]); pt = alloc_i64(it, 'types', t['types'])
+        ids = it.alloc(8 * 96, 'ids'); sc = it.alloc(8 * 4 * n * n, 'sc')
+        k = sgn64(it.call('@h_triples', [n, pp, pb, c, pt, t['variant'], t['t'][0], t['t'][1], t['t'][2], ids, 32, sc]))
+        kk = max(0, min(k, 32))
+        return k, [sgn64(it.load(Ptr(ids.obj, 8 * i), 8)) for i in range(3 * kk)], {(i, j): read_doubles(it, Ptr(sc.obj, 8 * 4 * (i * n + j)), 4) for i in range(n) for j in range(n) if i != j}
+    try:
+        res, st = explore(mod, models.all_models(), body, parsed=parsed, max_paths=4000, timeout=900)
+    except symx.Unsupported as ex:
+        return {'task': t, 'error': 'Unsupported: %s' % ex, 'results': [], 'npaths': 0}
+    cand = expected_triples(t); cR = z3.RealVal(c); out = []
+    for it, (k, ids, sc) in res:
+        pc = list(it.pc); bad = None
+        got = [(ids[3 * a], frozenset((ids[3 * a + 1], ids[3 * a + 2]))) for a in range(max(k, 0))]
+        if k < 0: bad = ('threw', None)
+        for g in got:
+            if bad: break
+            if len(g[1]) != 2 or g[0] in g[1]: bad = ('degenerate triple %s delivered (a bead twice)' % ((g[0],) + tuple(sorted(g[1])),), _model(pc))
+            elif g not in cand: bad = ('triple %s delivered although the type lists do not allow it' % ((g[0],) + tuple(sorted(g[1])),), _model(pc))
+            elif got.count(g) > 1: bad = ('triple %s delivered %d times' % ((g[0],) + tuple(sorted(g[1])), got.count(g)), _model(pc))
+        for (ce, jk) in sorted(cand, key=lambda x: (x[0], sorted(x[1]))):
+            if bad: break
+            j, k2 = sorted(jk); S1 = R(sc[(ce, j)][3]); S2 = R(sc[(ce, k2)][3]); present = (ce, jk) in got
+            lem = [z3.And(S >= R(sc[(ce, o)][d]), S >= -R(sc[(ce, o)][d])) for o, S in ((j, S1), (k2, S2)) for d in range(3)]
+            q = pc + lem + ([z3.Or(S1 >= cR, S2 >= cR)] if present else [z3.And(S1 < cR, S2 < cR)])
+            st_, mdl, _ = _check(q)
+            if st_ == 'sat': bad = ('triple (centre %d; %d,%d) %s although %s' % (ce, j, k2, 'delivered' if present else 'missing', 'a centre distance is not below the cutoff' if present else 'both centre distances are below the cutoff'), mdl)
+            elif st_ == 'unknown': bad = ('unknown', None)
+        out.append((k, bad))
+    return {'task': t, 'results': out, 'npaths': len(res), 'instructions': st['instructions'], 'models': sorted(st['models_used'])}
+
+def _model(pc):
+    s = z3.Solver(); s.set('timeout', 30000); s.add(*smt.purify(list(pc)))
+    if s.check() != z3.sat: return {}
+    m = s.model(); return {str(d): str(m[d]) for d in m.decls() if str(d).startswith('p')}
+
 def dispatch(t):
-    return excl_task(t) if t.get('kind') == 'excl' else run_task(t)
+    return excl_task(t) if t.get('kind') == 'excl' else (triple_task(t) if t.get('kind') == 'triples' else run_task(t))
 
 def replay_native(meta):
     if meta['task'].get('kind') == 'excl':
@@ -197,6 +264,23 @@ def replay_native(meta):
         v = [int(x) for x in line[0].split()[1:]]; i, j = m['pair']
         return v[0] != 0 or v[1 + 5 * i + j] != m['expected'], 'native CreateExclusions with angle (%d,%d,%d), bond (%d,%d), %s first: IsExcluded(%d,%d) = %d, expected %d' % (m['a'], m['b'], m['c'], m['d'], m['e'], 'angle' if m['angle_first'] else 'bond', i, j, v[1 + 5 * i + j], m['expected'])
     binp = common.native_build([common.harness_path(HARNESS)], 'C03p_native', extra=['-I' + common.REPO], defs=['VERIF_NATIVE'], libs=['-lexpat'])
+    if meta['task'].get('kind') == 'triples':
+        binp = common.native_build([common.harness_path(HARNESS)], 'C03p_native', extra=['-I' + common.REPO], defs=['VERIF_NATIVE'], libs=['-lexpat'])
+        t = meta['task']; m = meta.get('model') or {}; n = t['n']
+        def num(v):
+            try: return float(F(str(v).rstrip('?')))
+            except Exception: return 0.0
+        pos = [num(m.get('p%d' % i, '0')) for i in range(3 * n)]; L = [float(F(x)) for x in t['L']]; c = float(F(t['cutoff']))
+        args = ['triples', str(n), str(t['variant'])] + [str(x) for x in t['t']] + [repr(c)] + [repr(x) for x in (L[0], 0, 0, 0, L[1], 0, 0, 0, L[2])] + [repr(x) for x in pos] + [str(x) for x in t['types']]
+        rc, so, se = common.run_native(binp, args=args); line = [l for l in so.split('\n') if l.startswith('RESULT')]
+        if not line: return True, 'native run gave no result'
+        v = [int(x) for x in line[0].split()[1:]]; got = [(v[1 + 3 * a], frozenset((v[2 + 3 * a], v[3 + 3 * a]))) for a in range(max(v[0], 0))]
+        import math
+        def dist(i, j):
+            d = [pos[3 * j + q] - pos[3 * i + q] for q in range(3)]; d = [x - L[q] * round(x / L[q]) for q, x in enumerate(d)]; return math.sqrt(sum(x * x for x in d))
+        exp = sorted((ce, tuple(sorted(jk))) for ce, jk in expected_triples(t) if all(dist(ce, o) < c for o in jk))
+        gl = sorted((ce, tuple(sorted(jk))) for ce, jk in got)
+        return gl != exp, 'native three-body search (%s), positions %s: delivered %s, expected %s' % (t['label'], pos, gl, exp)
     t = meta['task']; m = meta.get('model') or {}; n = t['n']
     def num(v):
         v = str(v).rstrip('?')
